@@ -75,18 +75,19 @@ Proof.
   intros (o & pre & E). exists o. cbn [lambda_finish l_bc]. rewrite E, rev_app_distr. reflexivity.
 Qed.
 
-Ltac lens := unfold CQ in *; unfold emit_op in *; rewrite ?bc_len_emit, ?bc_len_patch in *; lia.
+#[local] Hint Rewrite bc_len_emit bc_len_patch : bclen.
+Ltac lens := unfold CQ in *; unfold emit_op in *; autorewrite with bclen in *; lia.
 Ltac ci := repeat first [ assumption
                         | apply CI_emit; [|first [exact I|assumption|idtac]]
                         | apply CI_patch; [|lens|lens] ].
 Ltac gr := solve [repeat first [assumption | apply grow_refl | eapply grow_trans; [eassumption|]]].
-Ltac cell_ind x := induction x as [?|?| |?|a d IHa IHd|?|?|?| | |?| | ].
+Ltac cell_ind x := induction x as [xb|xc| |xn|a IHa d IHd|xs|xs|xl| | |xo| | ].
 Ltac ifd := match goal with |- npost _ _ ((if ?b then _ else _) _) _ => destruct b end.
 
 (* ------------------------------------------------------------------ generic steps *)
-Lemma npo_le s (r : res lambda) l l1 : bc_len l <= bc_len l1 -> npo s r (CQ l1) -> npo s r (CQ l).
+Lemma npo_le s (r : VmBase.res lambda) l l1 : bc_len l <= bc_len l1 -> npo s r (CQ l1) -> npo s r (CQ l).
 Proof. intros L. apply npost_weaken. intros s' l' _ _ [H1 H2]. split; [exact H1|lia]. Qed.
-Lemma npo_pre {X} s s1 (r : res X) Q : grow s s1 -> npo s1 r Q -> npo s r Q.
+Lemma npo_pre {X} s s1 (r : VmBase.res X) Q : grow s s1 -> npo s1 r Q -> npo s r Q.
 Proof.
   intros G. destruct r; cbn [npost]; auto.
   - intros (W & G2 & H). split; [exact W|]. split; [eapply grow_trans; eassumption|exact H].
@@ -260,8 +261,8 @@ Lemma c_if l tail rest s : wfm s -> CI s l -> npo s (f_if ce l tail rest s) (CQ 
 Proof.
   intros W HI. unfold f_if. ifd; [apply npost_fail, W|].
   eapply npost_bind with (Q := T_).
-  { destruct (cell_iter rest) as [|t [|c [|a [|]]]]; try (apply npost_fail, W); apply npost_ret; [exact W|exact I]. }
-  intros [[t c] alt] s1 W1 G1 _. cbv beta iota. eapply npo_pre; [exact G1|].
+  { destruct (cell_iter rest) as [|t [|c [|a [|]]]]; try (apply npost_fail, W); (apply npost_ret; [exact W|exact I]). }
+  intros [[t c] alt] s1 W1 G1 _. cbv beta iota.
   apply c_if_core; [exact W1|eapply CI_grow; eassumption].
 Qed.
 Lemma c_args r : forall lam n s, wfm s -> CI s lam ->
@@ -385,7 +386,7 @@ Proof.
     + intros l e d s W HI. rewrite compile_quasiquote_S. apply c_quasi; assumption.
 Qed.
 
-Lemma CQ_post s (r : res lambda) l : npo s r (CQ l) -> npo s r (fun s' l' => bcwf s' l' /\ lastop l').
+Lemma CQ_post s (r : VmBase.res lambda) l : npo s r (CQ l) -> npo s r (fun s' l' => bcwf s' l' /\ lastop l').
 Proof. apply npost_weaken. intros s' l' _ _ [H _]. exact H. Qed.
 
 Theorem np_compile_expression f l tail e s : wfm s -> bcwf s l -> lastop l ->
@@ -417,7 +418,7 @@ Proof.
   intros lp s2 W2 G2 (p & -> & Hp). apply npost_ret; [exact W2|].
   change (CI s2 (emit_op (emit_op (emit (emit (emit_op (emit (emit_op (lambda_new []) OPushImmediate) (VArgc 0))
                                              OMovImmediate) (VPtr p)) VAcc) OCallAcc) OHalt)).
-  repeat (apply CI_emit; [|exact I]). apply CI_first. reflexivity.
+  do 6 (apply CI_emit; [|exact I]). apply CI_first. reflexivity.
 Qed.
 
 Theorem np_prepare_eval e s : wfm s ->
